@@ -1,5 +1,6 @@
 """helpers shared by the rule modules (part of E5: callee resolution)"""
 import ast
+import os
 import struct
 
 from ..index import AnalysisError, FUNC, ClassInfo, unparse, parents, stmt_of
@@ -367,3 +368,112 @@ def override_rule(chk, repo, rule, base_qual, methods, why):
                 f"of its own: {why}") if offenders else
                "inherited unchanged (or forwarded verbatim) everywhere")
     return n
+
+
+# ------------------------------------------------- shared mutable defaults
+_MUTATORS = {"append", "extend", "insert", "add", "update", "pop", "remove",
+             "clear", "setdefault", "discard", "popitem", "sort"}
+
+
+def _is_mutable_display(v):
+    if isinstance(v, (ast.List, ast.Dict, ast.Set, ast.ListComp, ast.DictComp,
+                      ast.SetComp)):
+        return True
+    return isinstance(v, ast.Call) and dotted(v.func) in (
+        "list", "dict", "set", "defaultdict", "bytearray", "deque",
+        "collections.defaultdict", "OrderedDict")
+
+
+def shared_mutables(repo, ci):
+    """class-level mutable containers of `ci` (own body) that methods of the
+    class or its subclasses mutate in place through `self.<name>` while no
+    __init__ along the way rebinds them per instance: [(name, class-level
+    statement, mutating node)]"""
+    out = []
+    for name, v in ci.attrs.items():
+        if not _is_mutable_display(v):
+            continue
+        classes = [c for c in repo.subclasses(ci.qualname)]
+        rebound = False
+        mut = None
+        for c in classes:
+            for mname, f in c.methods.items():
+                for n in ast.walk(f):
+                    if isinstance(n, (ast.Assign, ast.AnnAssign)):
+                        tg = n.targets if isinstance(n, ast.Assign) \
+                            else [n.target]
+                        for t in tg:
+                            for tt in (t.elts if isinstance(
+                                    t, ast.Tuple) else [t]):
+                                if unparse(tt) == f"self.{name}" and \
+                                        mname in ("__init__", "__new__",
+                                                  "__set_name__"):
+                                    rebound = True
+                    m = None
+                    if isinstance(n, ast.Call) and isinstance(
+                            n.func, ast.Attribute) and n.func.attr in \
+                            _MUTATORS and unparse(n.func.value) == \
+                            f"self.{name}":
+                        m = n
+                    elif isinstance(n, (ast.Assign, ast.AugAssign, ast.Delete)):
+                        tg = n.targets if not isinstance(
+                            n, ast.AugAssign) else [n.target]
+                        for t in tg:
+                            if isinstance(t, ast.Subscript) and unparse(
+                                    t.value) == f"self.{name}":
+                                m = n
+                    if m is not None and mut is None:
+                        mut = m
+        if mut is not None and not rebound:
+            out.append((name, ci.attr_stmts[name], mut))
+    return out
+
+
+def per_instance_rule(chk, repo, rule, class_quals, why):
+    """state the other rules treat as belonging to one object (one packet,
+    one terminal, one master) really is per instance"""
+    _per_instance_control()
+    for q in class_quals:
+        ci = repo.cls(q)
+        bad = []
+        for c in repo.mro(ci):
+            if isinstance(c, ClassInfo):
+                bad += [(c, x) for x in shared_mutables(repo, c)]
+        chk.ob(rule, q, "containers mutated through self are created per "
+               "instance", not bad, bad[0][1][1] if bad else ci.node,
+               (f"`{unparse(bad[0][1][1])[:50]}` in {bad[0][0].qualname} is "
+                f"one object shared by every instance, and "
+                f"`{unparse(bad[0][1][2])[:50]}` changes it in place: "
+                f"{why}") if bad else "no class-level list/dict/set is "
+               "mutated in place")
+
+
+_PI_CONTROL_DONE = False
+
+
+def _per_instance_control():
+    """positive control for shared_mutables (its expected count on the real
+    tree is zero): a synthetic class pair must be told apart"""
+    global _PI_CONTROL_DONE
+    if _PI_CONTROL_DONE:
+        return
+    import shutil
+    import tempfile
+    from ..index import Repo
+    d = tempfile.mkdtemp(prefix="sa-control.")
+    try:
+        os.makedirs(os.path.join(d, "ebpfcat"))
+        with open(os.path.join(d, "ebpfcat", "ctl.py"), "w") as f:
+            f.write("class Shared:\n    items = []\n    n = 0\n"
+                    "    def add(self, x):\n        self.items.append(x)\n"
+                    "class Own:\n    items = []\n"
+                    "    def __init__(self):\n        self.items = []\n"
+                    "    def add(self, x):\n        self.items.append(x)\n")
+        r = Repo(d)
+        a = shared_mutables(r, r.cls("ebpfcat.ctl.Shared"))
+        b = shared_mutables(r, r.cls("ebpfcat.ctl.Own"))
+        if len(a) != 1 or b:
+            raise AnalysisError("per_instance_rule: positive control failed")
+    finally:
+        shutil.rmtree(d, ignore_errors=True)
+    _PI_CONTROL_DONE = True
